@@ -1231,7 +1231,7 @@ pub fn run(ctx: &mut RunCtx) {
     ctx.assume("the worker decodes on its main thread (8 MiB stack by default): the stack an embedding application gives the library");
 
     let depth = ctx.tier.pick(6, 8);
-    let n_rt = ctx.tier.pick(300_000, 2_500_000);
+    let n_rt = ctx.tier.pick(300_000, 10_000_000);
     ctx.explore_with(
         "value-roundtrip",
         "structurally generated values (all nine kinds, depth <= 6 with up to 8 entries per level, flat lists/maps of up to 64 entries, chains up to 48 deep, NaN payloads / signed zeros / subnormals, empty and non-ASCII strings and keys, blobs): decode(encode(v)) compared bit-exactly by an own comparator and by the bit-pattern mirror, and encode(decode(encode(v))) == encode(v); non-trivial = nested value",
@@ -1337,7 +1337,7 @@ pub fn run(ctx: &mut RunCtx) {
             std::process::exit(2);
         }
     }
-    let n_rob = ctx.tier.pick(300_000, 2_500_000);
+    let n_rob = ctx.tier.pick(300_000, 10_000_000);
     let depths: Vec<u32> = ctx.tier.pick(vec![60, 127, 128, 129, 1000, 10_000, 100_000], vec![60, 127, 128, 129, 1000, 10_000, 100_000, 1_000_000]);
     let fixed = vec![
         ByteCase::Deep { target: Target::Value, shape: DeepShape::Lists, depth: 100_000, closed: true },
